@@ -39,9 +39,13 @@ let () =
     let s = { s_mag = mag; s_pn = pn; s_insts = insts } in
     let m = { mx_pre = pre; mx_insts = ims } in
     let evs = events s m in
-    let groups = rlist (fun r -> let t = rz r in let id = rn r in let n = rint r in (t, id, n)) r in
     let rest = ref evs in
-    let peses = List.map (fun (t, id, n) -> let (a, b) = take n !rest in rest := b; ((t, id), List.map snd a)) groups in
+    let peses = rlist (fun r ->
+      match rint r with
+      | 0 -> let t = rz r in let id = rn r in let n = rint r in let trail = rstr r in
+             let (a, b) = take n !rest in rest := b; PUnits (t, id, List.map snd a, trail)
+      | 1 -> PNoTime (rstr r)
+      | _ -> let t = rz r in let p = rstr r in PInert (t, p)) r in
     let flat = List.concat (List.map pes_units peses) in
     let inclass = (if auto then mux_ok_auto s m else mux_ok s m) && List.for_all pes_ok peses && flat = evs in
     if not inclass && Sys.getenv_opt "TTX_DEBUG" <> None then begin
